@@ -1449,11 +1449,63 @@ def run(ctx):
     proc_index(ctx, coq, by.get('index', []))
     proc_wrapper(ctx, coq, by.get('wrapper', []))
     proc_doc(ctx, coq, by.get('doc', []))
+    stream_edited(ctx)
     ctx.stat('wall_oracles', round(time.time() - t0, 1))
     t0, c0 = time.time(), cpu()
     eval_cases(ctx, coq)
     ctx.stat('wall_coq_cases', round(time.time() - t0, 1))
     ctx.stat('cpu_coq_cases', round(cpu() - c0, 1))
+
+
+# ------------------------------------------------------------------ edited definitions (same path, same call line)
+def _edited_task(t):
+    """ONE process, the same path, two Scripts in quick succession: the definition changes, the call line and the
+    bracket position do not.  The second answer must describe the second definition (params, kinds, to_string, index)."""
+    import jedi
+    out = []
+    path = os.path.join(t['dir'], 'edited_%d.py' % t['k'])
+    for step, src in enumerate(t['srcs']):
+        g = {'__name__': 'm0'}
+        exec(compile(src[:len(src) - len(t['call'])], '<c11e>', 'exec'), g)      # everything but the open call
+        obj = eval(t['obj'], {'g': g})
+        want = _sig_strings(inspect.signature(obj))
+        line = src.count('\n') + 1        # the call is the last line (no final newline)
+        col = len(t['call'])
+        try:
+            sigs = jedi.Script(src, path=path).get_signatures(line, col)
+            got = [[(p.name, int(p.kind)) for p in sg.params] for sg in sigs]
+            idx = [sg.index for sg in sigs]
+        except Exception as e:
+            got, idx = 'EXC:' + repr(e)[:200], None
+        out.append(dict(step=step, src=src, want=[(n, k) for (n, k, *_r) in want], got=got, index=idx))
+    return out
+
+
+def stream_edited(ctx):
+    rng = ctx.rng
+    tasks = []
+    forms = [('def f(%s):\n    return 1\n%s', 'g["f"]', 'f('),
+             ('class K:\n    def m(self, %s):\n        return 1\nk = K()\n%s', 'g["k"].m', 'k.m('),
+             ('class B:\n    def __init__(self, %s):\n        pass\n%s', 'g["B"]', 'B(')]
+    plists = ['a', 'a, b', 'a, b=1', 'a, *, c', 'a, /, b', '*args', 'a, **kw', 'x, y, z', 'p, q=2, *r', 'only']
+    for k in range(ctx.n(24, 120)):
+        tmpl, obj, call = forms[k % len(forms)]
+        a, b = rng.sample(plists, 2)
+        c = rng.choice(plists)
+        tasks.append(dict(k=k, dir=ctx.tmp, obj=obj, call=call, srcs=[tmpl % (pl, call) for pl in (a, b, c)]))
+    res = common.pmap(_edited_task, tasks, chunksize=2)
+    for t, steps in zip(tasks, res):
+        for r in steps:
+            ctx.count('edited', (t['srcs'][r['step']], r['step']), nontrivial=r['step'] > 0)
+            ok = isinstance(r['got'], list) and len(r['got']) == 1 and \
+                [tuple(x) for x in r['got'][0]] == [tuple(x) for x in r['want']]
+            if not ok:
+                ctx.deviation(dict(stream='edited', cls='signature-is-not-the-one-of-the-present-text', step=min(r['step'], 1)),
+                              dict(path_reused=True, step=r['step'], sources=t['srcs'][:r['step'] + 1], expected=r['want'],
+                                   reported=r['got']),
+                              'get_signatures after the definition was edited (same path, same call line) reports %r, the '
+                              'definition in the text has %r' % (r['got'], r['want']))
+    ctx.stat('edited_sessions', len(tasks))
 
 
 def replay(ctx, path):
